@@ -1275,3 +1275,11 @@ t('twin-leafbook-order', ['C02'],
 m('c01-assert-contained', ['C01', 'C11'],
   (SL, "        if a == c:\n            assert b < d", "        if a == c:\n            assert b > d"),
   rule='R-assert')
+m('geo-space-interval', ['C01', 'C02', 'C04'],
+  (M, "        self.space_interval = self.vertices[0].x, self.vertices[2].x",
+   "        self.space_interval = self.vertices[0].x, self.vertices[3].x"),
+  rule='R-geometry')
+m('geo-time-interval', ['C01', 'C02', 'C04'],
+  (M, "        self.time_interval = self.vertices[0].t, self.vertices[2].t",
+   "        self.time_interval = self.vertices[0].t, self.vertices[1].t"),
+  rule='R-geometry')
